@@ -79,7 +79,7 @@ Expected(p, m, e, kind, z, pid, p0) ==
 \* "no such process" is a contradictory kernel (PID 0 cannot be a zombie and
 \* cannot vanish); the literal reading (NoSuchProcess) and the "still listed"
 \* reading (ZombieProcess) are both accepted there.
-Contradictory(p, e, kind, z, pid, p0) == NoProcErr(p, e, kind) /\ pid = 0 /\ p0 /\ ~z
+Contradictory(p, e, kind, z, pid, p0) == p \in Posix /\ NoProcErr(p, e, kind) /\ pid = 0 /\ p0 /\ ~z
 
 Allowed(p, m, e, kind, z, pid, p0) ==
     {Expected(p, m, e, kind, z, pid, p0)}
@@ -434,18 +434,18 @@ PidCasesOf(p) == IF p = "windows" THEN {c \in PidCases : ~c[2]} ELSE PidCases   
 Row(k, p, m, e, site, c, mode) ==
     [k |-> k, p |-> p, m |-> m, e |-> e, site |-> site, z |-> c[2], pid |-> c[1], p0 |-> c[3], mode |-> mode]
 
-ErrRows == {Row("err", p, m, e, s, c, "-") :
-              p \in Platforms, m \in UNION {Methods(q) : q \in Platforms}, e \in ErrSel,
-              s \in 1..MaxSite, c \in PidCases}
-ValidErr(r) == r.m \in Methods(r.p) /\ r.e \in ErrorsOf(r.p) /\ <<r.pid, r.z, r.p0>> \in PidCasesOf(r.p)
+ErrRows == UNION {{Row("err", p, m, e, s, c, "-") :
+                      m \in Methods(p), e \in ErrSel \cap ErrorsOf(p), s \in 1..MaxSite, c \in PidCasesOf(p)}
+                  : p \in Platforms}
 
-LayoutRows == {Row("layout", p, m, "-", 0, <<5, FALSE, TRUE>>, mode) :
-                 p \in Platforms, m \in UNION {Methods(q) : q \in Platforms}, mode \in {"primary", "alt"}}
-ValidLayout(r) == r.m \in Methods(r.p) /\ HasLayout(r.p, r.m) /\ (r.mode = "alt" => HasAlt(r.p, r.m))
+LayoutRows == UNION {{Row("layout", p, m, "-", 0, <<5, FALSE, TRUE>>, mode) :
+                        m \in {x \in Methods(p) : HasLayout(p, x)}, mode \in {"primary", "alt"}}
+                     : p \in Platforms}
+ValidLayout(r) == r.mode = "alt" => HasAlt(r.p, r.m)
 
 PlatRows == {Row("platform", p, "-", "-", 0, <<5, FALSE, TRUE>>, "-") : p \in Platforms}
 
-Rows == {r \in ErrRows : ValidErr(r)} \cup {r \in LayoutRows : ValidLayout(r)} \cup PlatRows
+Rows == ErrRows \cup {r \in LayoutRows : ValidLayout(r)} \cup PlatRows
 
 AllowedOf(r, kind) == Allowed(r.p, r.m, r.e, kind, r.z, r.pid, r.p0)
 
@@ -481,7 +481,7 @@ Spec == Init /\ [][Next]_vars
 (* Meta-properties of the table, checked over every enumerated row          *)
 (* ------------------------------------------------------------------------ *)
 
-IsErr == inp.k = "err"
+IsErr == inp.k = "err" /\ out # Pending
 ForKinds(P(_)) == \A kind \in KindsOf(inp.p) : P(kind)
 
 \* total: every row has an expectation and it is one of the four classes
@@ -525,7 +525,7 @@ NoZombieOnWindows == IsErr /\ inp.p = "windows" => ForKinds(LAMBDA kind : "Zombi
 \* tuple read the same slot (so a swapped index is observable with distinct
 \* slot values) -- except Windows rss/vms which are documented aliases of
 \* wset/pagefile
-LayoutRow == inp.k = "layout"
+LayoutRow == inp.k = "layout" /\ out # Pending
 SrcOf(r) == LET L == Layout(r.p, r.m) IN IF r.mode = "alt" THEN L.alt ELSE L.src
 LayoutTotal == LayoutRow =>
     LET L == Layout(inp.p, inp.m)  q == SrcOf(inp) IN
@@ -544,7 +544,7 @@ SlotNamesDistinct == \A key \in DOMAIN Slots :
 
 \* exports: Windows-only names are promised nowhere else, UNIX-only names not on
 \* Windows, every platform is promised the common API
-PlatRow == inp.k = "platform"
+PlatRow == inp.k = "platform" /\ out # Pending
 ExportsSane == PlatRow =>
     /\ CommonExports \subseteq Exports(inp.p)
     /\ (inp.p # "windows" => Exports(inp.p) \cap WinOnly = {})
